@@ -46,8 +46,30 @@ ASSUMPTIONS = ["numpy aliasing rules (fancy index / arithmetic / np.concatenate 
 COLS = ["id", "type", "x", "y", "z", "r", "pid"]
 
 
+def cols_of(t):
+    """every column a tree carries: the seven swc columns, then any further per-node column (eswc fields, user features)"""
+    nd = getattr(t, "ndata", None)
+    return COLS + [k for k in (nd.keys() if isinstance(nd, dict) else []) if k not in COLS]
+
+
 def snapshot(t):
-    return {k: t.get_ndata(k).copy() for k in COLS}
+    return {k: np.array(t.get_ndata(k), copy=True) for k in cols_of(t)}
+
+
+def changed_cols(before, t):
+    """columns of `t` that differ from the snapshot `before` (values, dtype, shape), or that came / went"""
+    now = cols_of(t)
+    out = [c for c in before if c not in now] + [c for c in now if c not in before]
+    for c in before:
+        if c in now:
+            a, b = before[c], np.asarray(t.get_ndata(c))
+            if a.dtype != b.dtype or a.shape != b.shape or not np.array_equal(a, b, equal_nan=a.dtype.kind == "f"):
+                out.append(c)
+    return out
+
+
+def shared_cols(t, y, prefix=""):
+    return [(prefix + a, b) for a in cols_of(t) for b in cols_of(y) if np.shares_memory(t.get_ndata(a), y.get_ndata(b))]
 
 
 # ---- "later edits of either side cannot leak into the other" ----------------------------------------------------------------------------------
@@ -441,9 +463,47 @@ def make_operand(mode, cur, pool, rng, info, legacy=False):
     return other
 
 
+# ---- trees that carry MORE than the seven swc columns ---------------------------------------------------------------------------------------
+# A well-formed tree may carry any further per-node column: the eswc fields (Tree.from_eswc), columns named by the reader's `extra_cols=`,
+# feature arrays handed to the constructor (`Tree(n, ..., level=arr)`). "Shares no storage / later edits cannot leak" is about the whole
+# tree, so every column it carries is snapshot, compared with np.shares_memory and edited (cols_of / changed_cols / shared_cols / observe).
+COLUMN_ORIGINS = ["arrays+columns", "swc-text+extra_cols", "eswc-text"]
+ESWC_FIELDS = ["level", "mode", "timestamp", "teraflyindex", "feature_value"]
+FEATURE_NAMES = ["level", "label", "w", "score", "depth", "seg_id", "visited", "feature_value", "timestamp"]
+FEATURE_DTYPES = ["int32", "int64", "float32", "float64", "bool", "uint8"]
+
+
+def rand_columns(rng, n, origin):
+    """the further columns of a start tree: [{"name", "dtype", "values"}] (file origins: the reader decides the dtype)"""
+    names = ESWC_FIELDS if origin == "eswc-text" else rng.sample(FEATURE_NAMES, rng.randint(1, 3))
+    cols = []
+    for name in names:
+        dt = rng.choice(FEATURE_DTYPES) if origin == "arrays+columns" else "float64"
+        if dt == "bool":
+            vals = [rng.random() < 0.5 for _ in range(n)]
+        elif dt[0] in "iu" or rng.random() < 0.4:
+            vals = [rng.randint(0, 9) for _ in range(n)]
+        else:
+            vals = [rng.randint(-64, 64) / 8.0 for _ in range(n)]
+        cols.append({"name": name, "dtype": dt, "values": vals})
+    return cols
+
+
 def start_tree(case):
     """the tree a pipeline starts from, by `origin`"""
     origin = case.get("origin", "arrays")
+    if origin in COLUMN_ORIGINS:
+        L = lib()
+        base = gen.make_tree(case["tree"], comments=list(case.get("comments") or []), source=case.get("source", ""))
+        extra = {c["name"]: np.array(c["values"], dtype=c["dtype"]) for c in case["columns"]}
+        t = L.Tree(case["tree"]["n"], **{k: base.get_ndata(k) for k in COLS}, **extra, comments=list(case.get("comments") or []), source=case.get("source", ""))
+        if origin == "arrays+columns":
+            return t
+        with warnings.catch_warnings():
+            warnings.simplefilter("ignore")
+            if origin == "eswc-text":       # the five eswc fields, through the eswc reader
+                return L.Tree.from_eswc(io.StringIO(t.to_swc(extra_cols=list(ESWC_FIELDS))))
+            return L.Tree.from_swc(io.StringIO(t.to_swc(extra_cols=list(extra))), extra_cols=list(extra))
     if origin == "arrays":
         return gen.make_tree(case["tree"])
     t = gen.make_tree(case["tree"], comments=list(case.get("comments") or []), source=case.get("source", ""))
@@ -542,6 +602,21 @@ class Pipeline(Suite):
                 ops = ([rng.choice(UNARY)] if rng.random() < 0.5 else []) + [rt] + ([rand_step(rng)] if rng.random() < 0.6 else [])
                 out.append({"class": f"roundtrip-options/off-{off_class}/{via}", "family": "roundtrip-options", "opt": f"off-{off_class}/{via}", "v": 2, "tree": tr, "ops": ops,
                             "seed": rng.randrange(10**6)})
+        # (6) trees that carry further per-node columns (eswc fields, reader's extra_cols, feature arrays given to the constructor): every
+        #     operation (and both operand orders of cat_tree) on a tree of every such origin, then short pipelines. Every column the tree
+        #     carries is snapshot, tested for shared storage and edited on either side.
+        plans = [(o, [s1]) for o in COLUMN_ORIGINS for s1 in singles]
+        for _ in range(45 if not big else 300):
+            ops = [rand_step(rng) for _i in range(rng.randint(2, 4 if not big else 10))]
+            plans.append((rng.choice(COLUMN_ORIGINS), ([rng.choice(PRUNERS)] if rng.random() < 0.3 else []) + ops))
+        for origin, ops in plans:
+            shape = gen.pick_shape(rng, k); k += 1
+            if shape in ("single", "two"):
+                shape = "random"
+            tr = gen.tree_case(rng, rng.choice([3, 4, 5, 6, 7, 9, 12]), shape, numbering=rng.choice(["sorted", "root0", "root0"]), coords="dyadic", types="mixed")
+            tr["xyz"] = [[c / 16.0 for c in p] for p in tr["xyz"]]
+            out.append({"class": f"columns/{origin}", "family": "columns", "v": 3, "origin": origin, "edit": rng.choice(COMMENT_EDITS), "tree": tr,
+                        "columns": rand_columns(rng, tr["n"], origin), "comments": rand_comments(rng), "source": "", "ops": ops, "seed": rng.randrange(10**6)})
         return out
 
     def run(self, case):
@@ -607,18 +682,19 @@ class Pipeline(Suite):
                     rec["other_pids"] = info["other_pids"]
                 if "reused" in info:
                     rec["reused"] = info["reused"]          # how often this step's transform object had been called before
-                rec["input_changed"] = [c for c in COLS if not np.array_equal(before[c], cur.get_ndata(c))] + [w for w, a, b in zip(("comments", "source"), before_meta, meta(cur)) if a != b]
-                rec["shares"] = [(a, b) for a in COLS for b in COLS if np.shares_memory(cur.get_ndata(a), y.get_ndata(b))]
+                rec["input_changed"] = changed_cols(before, cur) + [w for w, a, b in zip(("comments", "source"), before_meta, meta(cur)) if a != b]
+                rec["shares"] = shared_cols(cur, y)
                 if other is not None:
-                    rec["input_changed"] += ["other:" + c for c in COLS if not np.array_equal(before_other[c], other.get_ndata(c))]
+                    rec["input_changed"] += ["other:" + c for c in changed_cols(before_other, other)]
                     rec["input_changed"] += ["other:" + w for w, a, b in zip(("comments", "source"), before_other_meta, meta(other)) if a != b]
-                    rec["shares"] += [("other:" + a, b) for a in COLS for b in COLS if np.shares_memory(other.get_ndata(a), y.get_ndata(b))]
+                    rec["shares"] += shared_cols(other, y, "other:")
                 try:
                     rec["leaks"] = later_edits(y, [("input", cur)] + ([("other input", other)] if other is not None and other is not cur else []), edit_kind, k, text)
                 except CaseTimeout:
                     raise
                 except Exception as e:  # noqa: BLE001 - a tree that cannot be edited / read back: reported, never a crash
                     rec["leaks"] = [{"edited": "?", "edits": [], "seen_in": "?", "changed": [f"<{type(e).__name__}: {str(e)[:200]}>"]}]
+                rec["extra_in"], rec["extra_out"] = cols_of(cur)[len(COLS):], cols_of(y)[len(COLS):]
                 rec["finite"] = bool(np.all(np.isfinite(y.xyz())) and np.all(np.isfinite(y.r())))
                 rec["nosort_root"] = nosort_root
                 steps.append(rec)
@@ -653,6 +729,8 @@ class Pipeline(Suite):
             what = f"result {k}, of {'|'.join([st['op']] + st.get('flags', []))}({st['arg']}), in {case['ops']} on pids={case['tree']['pids']}"
             if "other_pids" in st:
                 what += f" (other tree: pids={st['other_pids']})"
+            if case.get("columns"):
+                what += f" (start tree: {case.get('origin')} with the further columns {[(c['name'], c['dtype']) for c in case['columns']]}; this step's input carries {st.get('extra_in')})"
             if st.get("reused"):
                 what += f" (carried out by the transform object that served {st['reused']} earlier step(s) of this pipeline)"
             ids, pids = st["id"], st["pid"]
@@ -701,6 +779,9 @@ class Pipeline(Suite):
             return f"reuse/{case.get('pattern', '?')}{wide}"
         if case.get("family") == "roundtrip-options":
             return f"roundtrip-options/{case.get('opt')}"
+        if case.get("family") == "columns":
+            kept = [len(st["extra_out"]) for st in steps if "extra_out" in st]
+            return f"columns/{case.get('origin')}/len{min(len(case['ops']), 4)}/{'carried' if any(kept) else 'dropped' if kept else 'no-step'}"
         if case.get("family") == "edits":
             return f"edits/{case.get('origin')}/{case.get('edit')}/len{min(len(case['ops']), 4)}"
         return f"{case.get('family', 'random')}/len{min(len(case['ops']) // 3 * 3, 12)}{wide}"
